@@ -115,6 +115,7 @@ pub fn push_call_frame(
     src_ptr: u32,
     instr_ptr: u32,
     closure: *mut CaoLangClosure,
+    closure_object: *mut CaoLangObject,
     runtime_data: &mut RuntimeData,
 ) -> ExecutionResult {
     // remember the location after this jump
@@ -136,6 +137,7 @@ pub fn push_call_frame(
                 .checked_sub(arity)
                 .ok_or(ExecutionErrorPayload::MissingArgument)? as u32,
             closure,
+            closure_object,
         })
         .map_err(|_| ExecutionErrorPayload::CallStackOverflow)?;
     Ok(())
@@ -155,6 +157,7 @@ pub fn instr_call_function<T>(
     let arity;
     let label;
     let mut closure = std::ptr::null_mut();
+    let mut closure_object = std::ptr::null_mut();
     unsafe {
         match &o.as_ref().body {
             CaoLangObjectBody::Function(f) => {
@@ -165,6 +168,7 @@ pub fn instr_call_function<T>(
                 arity = c.function.arity;
                 label = c.function.handle;
                 closure = (c as *const CaoLangClosure).cast_mut();
+                closure_object = o.as_ptr();
             }
             CaoLangObjectBody::NativeFunction(f) => {
                 return call_native(vm, f.handle);
@@ -183,6 +187,7 @@ pub fn instr_call_function<T>(
         src_ptr as u32,
         *instr_ptr as u32,
         closure,
+        closure_object,
         &mut vm.runtime_data,
     )?;
 
